@@ -78,3 +78,7 @@ CLAIMED['C08'] = dict(
          'producer layout agreement for the zero-filled grid, reader structured flag, population mask and ordinal-to-grid mapping in get_trace. All grids / populations; '
          'traces_ref construction and header reads of irregular files (masked arrays in read_variant_headers) not under contract.',
     note='AX-NP-WHERE, AX-SEGYIO-R; io thread func unrolled for b0 in {4,8}; found and fixed D9 (increments written to the wrong words)')
+CLAIMED['C06'] = dict(
+    text='Proof per function of the exporter up to the segyio boundary: spec = reader axes, format from the stored binary header (IBM/IEEE kept, otherwise IBM with only the format word patched), '
+         'all traces and headers in ordinal order with the decoded samples / regenerated headers, stored 3600-byte SEG-Y file header written verbatim. What segyio writes from that spec is assumed.',
+    note='AX-SEGYIO-W assumed; get_trace per C02 contracts; found and fixed D35 (format word read from the wrong bytes)')
